@@ -440,11 +440,12 @@ class Dispatcher(BaseDispatcher, Generic[ContextType]):
             else:
                 request = self._request_class.from_json(request_json)
 
-        except json.JSONDecodeError as e:
-            response = self._response_class(id=None, error=pjrpc.exceptions.ParseError(data=str(e)))
-
         except (pjrpc.exceptions.DeserializationError, pjrpc.exceptions.IdentityError) as e:
             response = self._response_class(id=None, error=pjrpc.exceptions.InvalidRequestError(data=str(e)))
+
+        except ValueError as e:
+            # json.JSONDecodeError and other loader failures (e.g. integer literals exceeding the digit limit)
+            response = self._response_class(id=None, error=pjrpc.exceptions.ParseError(data=str(e)))
 
         else:
             if isinstance(request, BatchRequest):
@@ -583,11 +584,12 @@ class AsyncDispatcher(BaseDispatcher, Generic[ContextType]):
             else:
                 request = self._request_class.from_json(request_json)
 
-        except json.JSONDecodeError as e:
-            response = self._response_class(id=None, error=pjrpc.exceptions.ParseError(data=str(e)))
-
         except (pjrpc.exceptions.DeserializationError, pjrpc.exceptions.IdentityError) as e:
             response = self._response_class(id=None, error=pjrpc.exceptions.InvalidRequestError(data=str(e)))
+
+        except ValueError as e:
+            # json.JSONDecodeError and other loader failures (e.g. integer literals exceeding the digit limit)
+            response = self._response_class(id=None, error=pjrpc.exceptions.ParseError(data=str(e)))
 
         else:
             if isinstance(request, BatchRequest):
